@@ -5,7 +5,7 @@ seeds=${2:-"1 2 3 4 5 6 7 8"}
 cd "$(dirname "$0")"
 for s in $seeds; do
   for p in $props; do
-    out=$(VERIF_SEED=$s VERIF_SKIP_SELFTEST=1 timeout 900 /venv/bin/python check.py $p --tier quick 2>&1)
+    out=$(VERIF_SEED=$s timeout 1200 /venv/bin/python check.py $p --tier quick 2>&1)
     rc=$?
     echo "seed=$s prop=$p rc=$rc $(echo "$out" | grep -c VIOLATION) violations"
     if [ $rc -ne 0 ]; then echo "$out" | grep -v "^KNOWN" | tail -8; fi
